@@ -44,7 +44,41 @@ def committed(db, b, u):
     return z3.Exists([s1, s2], z3.And(bu.has([b, u, s1, s2]), z3.Not(c.n), c.v != 0))
 
 
+def _canceller_walks_running_groups(ctx):
+    """the canceller completes ('Cancelled') the jobs it selects; it reaches jobs only through its walk over job groups, and a
+    group of a batch whose update was never committed is not 'running' (groups become running only in commit_batch_update:
+    closed-world obligation of sched_visibility) - so every group walk of the canceller must keep `state = 'running'` as a
+    top-level conjunct (inside an OR it no longer confines anything)."""
+    rel = 'batch/batch/driver/canceller.py'
+    tree = pyast.parse(core.read_repo(rel))
+    walks, bad = 0, []
+    for n in pyast.walk(tree):
+        if isinstance(n, pyast.Constant) and isinstance(n.value, str) and 'FROM job_groups' in n.value and 'SELECT' in n.value.upper():
+            try:
+                stn = sqlparse.parse_statements(n.value, rel, n.lineno)[0]
+            except Exception as e:  # pylint: disable=broad-except
+                raise core.Undecided('canceller group walk at line %d is outside the SQL subset: %s' % (n.lineno, str(e)[:100]))
+            sel = stn.select
+            conj = []
+
+            def walk(e):
+                if isinstance(e, A.BinOp) and e.op == 'AND':
+                    walk(e.left)
+                    walk(e.right)
+                else:
+                    conj.append(e)
+
+            walk(sel.where)
+            walks += 1
+            ok = any(isinstance(c, A.BinOp) and c.op == '=' and isinstance(c.left, A.Name) and c.left.parts[-1] == 'state' and c.left.parts[0] in ('state', 'job_groups') and isinstance(c.right, A.Lit) and c.right.value == 'running' for c in conj)
+            if not ok:
+                bad.append('line %d' % n.lineno)
+    ctx.add(core.decided('C41/canceller/every-job-group-walk-is-confined-to-running-groups', walks >= 3 and not bad, 'group walks: %d; not confined: %r' % (walks, bad), kind='scan'))
+    ctx.under_contract(rel, 'Canceller.* (job-group walks, SQL-structural)')
+
+
 def build(ctx):
+    _canceller_walks_running_groups(ctx)
     ex = SP.proc_exec(inline_after=False)
     # ---- _create_jobs
     # the whole per-job region as one contract (wave 4; it subsumes the two positional fragments used before: same clauses,
